@@ -87,12 +87,20 @@ def r1_bits(ctx, F, rule='C11-R1'):
                           good='bit set is field 2 of the dequeued job',
                           bad='%s: bit set %r is not the dequeued job\'s' % (strat, bits))
             # initial bits: insert control-dependent on Expectation::Eventually, index of enumeration
-            init_body = b if strat == 'SIM' else Spawn(F, strat).b
-            ins = init_body.calls_to('IdSet::insert')
-            if not ins:
+            # (normal form A12: a `for` loop with `if let`, `filter(matches!(..)).for_each(insert)` and
+            # `filter(..).map(|(i, _)| i).collect()` are the same initialisation)
+            from common import collected_elements
+            from taint import origins
+            init_body = F.norm(b if strat == 'SIM' else Spawn(F, strat).b)
+            sites = [(c, c.args[1]) for c in init_body.calls_to('IdSet::insert')]
+            sites += [(y, el) for (y, el, col) in collected_elements(init_body, lambda t: t.startswith('id_set::IdSet'))]
+            if not sites:
                 raise AnchorMissing('%s: initial IdSet::insert' % init_body.path)
-            for c in ins:
-                ok1 = enumerate_index_of_properties(init_body, init_body.val(c.args[1]))
+            for c, el in sites:
+                org = origins(init_body, el)
+                ok1 = bool(org) and all(isinstance(o, tuple) and o[0] == 'proj' and o[1].is_('Iterator::next') and
+                                        o[1].targs and 'Enumerate' in o[1].targs[0] and 'Property<' in o[1].targs[0] and
+                                        o[2] == ('Some', '0', '0') for o in org)
                 ok2 = False
                 for sw in init_body.switches:
                     if sw.kind == 'variant' and sw.on.fields() and sw.on.fields()[-1] == '.expectation':
